@@ -26,19 +26,19 @@ type written struct {
 
 // In-memory net.PacketConn: the observable boundary of a Server.
 type fakeConn struct {
-	local   *net.UDPAddr
-	in      chan packet
-	closed  chan struct{}
-	once    sync.Once
-	mu      sync.Mutex
-	out     []written
-	nOut    atomic.Int64
+	local  *net.UDPAddr
+	in     chan packet
+	closed chan struct{}
+	once   sync.Once
+	mu     sync.Mutex
+	out    []written
+	nOut   atomic.Int64
 	// called (outside mu) for every write; may inject replies
 	onWrite func(w written)
 	// returns an error to fail the write
-	failWrite func(n int, b []byte, addr net.Addr) error
+	failWrite   func(n int, b []byte, addr net.Addr) error
 	shortWrites atomic.Bool // WriteTo returns len-1, nil
-	reads   atomic.Int64
+	reads       atomic.Int64
 	// number of ReadFrom calls entered
 	readCalls atomic.Int64
 	injected  atomic.Int64
@@ -163,11 +163,11 @@ func unlimited() *rate.Limiter { return rate.NewLimiter(rate.Inf, 1000000) }
 
 func baseConfig(conn *fakeConn) *dht.ServerConfig {
 	return &dht.ServerConfig{
-		Conn:          conn,
-		NoSecurity:    true,
-		StartingNodes: func() ([]dht.Addr, error) { return nil, nil },
-		SendLimiter:   unlimited(),
-		Logger:        discardLogger,
+		Conn:             conn,
+		NoSecurity:       true,
+		StartingNodes:    func() ([]dht.Addr, error) { return nil, nil },
+		SendLimiter:      unlimited(),
+		Logger:           discardLogger,
 		QueryResendDelay: func() time.Duration { return 30 * time.Millisecond },
 	}
 }
